@@ -27,6 +27,7 @@ var foPath = map[string]string{
 
 type foItem struct {
 	P    string `json:"p"`
+	Idx  int    `json:"idx"`  // p = "n": the idx-th numbered file /w/n/<idx>-nnn...
 	Mode string `json:"mode"` // r | w | rw
 	Mk   bool   `json:"mk"`
 }
@@ -49,6 +50,7 @@ type foFS struct {
 	B   string `json:"b"`
 	Sub string `json:"sub"`
 	C   string `json:"c"`
+	N   int    `json:"n"` // numbered regular files 1..n in /w/n
 }
 
 type foCase struct {
@@ -83,6 +85,8 @@ type foEv struct {
 	Blocked bool     `json:"blocked"`
 	Ok      bool     `json:"ok"`
 	Post    foObs    `json:"post,omitempty"`
+	NObs    int      `json:"nobs"`  // entries of /w/n (state event)
+	NPost   int      `json:"npost"` // entries of /w/n after the operation
 }
 
 type foOut struct {
@@ -91,6 +95,24 @@ type foOut struct {
 	FS    foFS   `json:"fs"`
 	Ev    []foEv `json:"ev"`
 	Setup string `json:"setup,omitempty"`
+}
+
+// itemPath renders the path of an Open item; numbered files have long distinct names
+func itemPath(it foItem) string {
+	if it.P == "n" {
+		return fmt.Sprintf("/w/n/%04d-%s", it.Idx, strings.Repeat("n", 85))
+	}
+	return foPath[it.P]
+}
+
+func (e *env) countNumbered() int {
+	d, err := os.Open(e.root("/w/n"))
+	if err != nil {
+		return 0
+	}
+	defer d.Close()
+	names, _ := d.Readdirnames(-1)
+	return len(names)
 }
 
 func plantOp(path, kind string) []string {
@@ -265,6 +287,9 @@ func (w *foWorker) run(c foCase) foOut {
 	args := []string{"/probe/contfs", "fs", "reg:/w/target", "dir:/w/tdir"}
 	args = append(args, plantOp("/w/a", c.FS.A)...)
 	args = append(args, plantOp("/w/b", c.FS.B)...)
+	if c.FS.N > 0 {
+		args = append(args, fmt.Sprintf("nreg:/w/n:%d", c.FS.N))
+	}
 	if c.FS.Sub == "dir" {
 		args = append(args, "dir:/w/sub")
 		args = append(args, plantOp("/w/sub/c", c.FS.C)...)
@@ -281,7 +306,7 @@ func (w *foWorker) run(c foCase) foOut {
 		out.Setup = "planting program: " + r.Status + " " + r.Err + r.Errs
 		return out
 	}
-	out.Ev = append(out.Ev, foEv{E: "state", Obs: e.observeFS(), Items: []foItem{}, Links: []foLink{}, Res: []foRes{}, Errs: []string{}})
+	out.Ev = append(out.Ev, foEv{E: "state", Obs: e.observeFS(), NObs: e.countNumbered(), Items: []foItem{}, Links: []foLink{}, Res: []foRes{}, Errs: []string{}})
 	for _, op := range c.Ops {
 		if op.Op == "open" && op.Many > 0 && len(op.Items) > 0 {
 			it := op.Items[0]
@@ -301,7 +326,7 @@ func (w *foWorker) run(c foCase) foOut {
 		case "open":
 			cmds := make([]container.OpenCmd, 0, len(op.Items))
 			for _, it := range op.Items {
-				cmds = append(cmds, container.OpenCmd{Path: foPath[it.P], Flag: openFlag(it.Mode), Perm: 0644, MkdirAll: it.Mk})
+				cmds = append(cmds, container.OpenCmd{Path: itemPath(it), Flag: openFlag(it.Mode), Perm: 0644, MkdirAll: it.Mk})
 			}
 			var res []container.OpenCmdResult
 			var cerr error
@@ -325,7 +350,7 @@ func (w *foWorker) run(c foCase) foOut {
 						}
 						if i < len(op.Items) {
 							var ps unix.Stat_t
-							if err := unix.Lstat(e.root(foPath[op.Items[i].P]), &ps); err == nil {
+							if err := unix.Lstat(e.root(itemPath(op.Items[i])), &ps); err == nil {
 								fr.Pident = ident(&ps)
 							}
 						}
@@ -374,6 +399,7 @@ func (w *foWorker) run(c foCase) foOut {
 			return out
 		}
 		ev.Post = e.observeFS()
+		ev.NPost = e.countNumbered()
 		out.Ev = append(out.Ev, ev)
 		// Ping carries a 3 s deadline.  To keep a slow machine from failing it, first make one
 		// round trip without a deadline (an empty Symlink request is answered by an error reply):
